@@ -617,7 +617,11 @@ func c05r2(rc *core.RC) {
 		rc.Touch(fn)
 		key := fn + "/number-scan"
 		if callsValidator(fd) {
-			rc.OK(key, fd.Pos(), "token reaches a numeric parser in the same function")
+			if validatorGuardsSuccess(p, fd, validators) {
+				rc.OK(key, fd.Pos(), "token reaches a numeric parser in the same function")
+			} else {
+				rc.Bad(key, fd.Pos(), "a validator is called, but a success return after the scan can be reached without passing the call (a fast path or a short-circuit in front of it)")
+			}
 			continue
 		}
 		if returnsBytes(fd) {
@@ -695,7 +699,9 @@ func c05r6(rc *core.RC) {
 		n++
 		fn := p.FuncName(fd)
 		rc.Touch(fn)
-		if valid {
+		if valid && !validatorGuardsSuccess(p, fd, map[string]bool{"encoder.validNumber": true}) {
+			rc.Bad(fn+"/number-scan", fd.Pos(), "validNumber is called, but a success return can be reached without passing the call (a fast path or a short-circuit in front of it): number texts that take that path are written unchecked")
+		} else if valid {
 			rc.OK(fn+"/number-scan", fd.Pos(), "the number text is checked by validNumber before it is written")
 		} else {
 			rc.Bad(fn+"/number-scan", fd.Pos(), "a number is written to the output after at most a character-set test or strconv.ParseFloat: texts such as 01, 1., -.5, +- pass (encoding/json rejects them)")
@@ -1084,4 +1090,110 @@ func c05r7(rc *core.RC) {
 	if n < 3 {
 		rc.Unknown("skipWhiteSpace/functions", token.NoPos, "found %d functions named skipWhiteSpace (decoder buffer, decoder stream, encoder expected)", n)
 	}
+}
+
+// validatorGuardsSuccess: the success returns that the number scan of fd can reach (or, in a
+// function without a scan, the appends that spread a parameter into the output) are dominated by a
+// block holding a validator call. go/cfg splits && and ||, so a call on the right of a
+// short-circuit does not dominate what follows.
+func validatorGuardsSuccess(p *core.Program, fd *ast.FuncDecl, validators map[string]bool) bool {
+	info := p.Info(fd)
+	cf := core.BuildCFG(fd.Body, info)
+	blockOfPos := func(pos, end token.Pos) *cfg.Block {
+		for _, b := range cf.G.Blocks {
+			for _, nd := range b.Nodes {
+				if nd.Pos() <= pos && end <= nd.End() {
+					return b
+				}
+			}
+		}
+		return nil
+	}
+	var vblocks, scanBlocks []*cfg.Block
+	var spreads []*cfg.Block
+	ast.Inspect(fd.Body, func(m ast.Node) bool {
+		switch x := m.(type) {
+		case *ast.CallExpr:
+			if validators[core.CalleeName(info, x)] && !underShortCircuit(fd.Body, x) {
+				if b := blockOfPos(x.Pos(), x.End()); b != nil {
+					vblocks = append(vblocks, b)
+				}
+			}
+			if core.IsBuiltin(info, x, "append") && x.Ellipsis.IsValid() && len(x.Args) == 2 {
+				if _, isParam := core.ObjOf(info, x.Args[1]).(*types.Var); isParam {
+					if b := blockOfPos(x.Pos(), x.End()); b != nil {
+						spreads = append(spreads, b)
+					}
+				}
+			}
+		case *ast.IndexExpr:
+			if o := core.ObjOf(info, x.X); o != nil && (o.Name() == "floatTable" || o.Name() == "numTable") {
+				if b := blockOfPos(x.Pos(), x.End()); b != nil {
+					scanBlocks = append(scanBlocks, b)
+				}
+			}
+		}
+		return true
+	})
+	if len(vblocks) == 0 {
+		return false
+	}
+	dominated := func(t *cfg.Block) bool {
+		for _, vb := range vblocks {
+			if vb == t || cf.Dominates(vb, t) {
+				return true
+			}
+		}
+		return false
+	}
+	if len(scanBlocks) == 0 {
+		for _, t := range spreads {
+			if !dominated(t) {
+				return false
+			}
+		}
+		return true
+	}
+	reach := map[*cfg.Block]bool{}
+	for _, sb := range scanBlocks {
+		for b := range cf.ReachableFrom(sb, nil) {
+			reach[b] = true
+		}
+		reach[sb] = true
+	}
+	for _, r := range cf.Returns() {
+		if core.ReturnIsError(info, r) {
+			continue
+		}
+		if len(r.Results) > 0 && core.IsNilIdent(info, r.Results[0]) {
+			continue // the nil token (null) carries no number
+		}
+		rb, _ := cf.BlockOf(r)
+		if rb == nil || !reach[rb] {
+			continue
+		}
+		if !dominated(rb) {
+			return false
+		}
+	}
+	return true
+}
+
+// underShortCircuit: the call is the right operand (or inside the right operand) of a && or ||,
+// so it is evaluated only for some values of the left operand (go/cfg keeps a whole condition in one node).
+func underShortCircuit(root ast.Node, call *ast.CallExpr) bool {
+	path := core.PathTo(root, call)
+	for i := len(path) - 2; i >= 0; i-- {
+		be, ok := path[i].(*ast.BinaryExpr)
+		if !ok {
+			if _, isStmt := path[i].(ast.Stmt); isStmt {
+				return false
+			}
+			continue
+		}
+		if (be.Op == token.LAND || be.Op == token.LOR) && be.Y.Pos() <= call.Pos() && call.End() <= be.Y.End() {
+			return true
+		}
+	}
+	return false
 }
